@@ -32,6 +32,7 @@ import export_ir  # noqa: E402
 
 OUT = LEAN / "ExoModel" / "Gen" / "X86Instrs.lean"
 BASELINE = HERE / "x86_instrs_baseline.json"
+BASELINE_TEXT = HERE / "x86_instrs_baseline.lean.txt"
 X86_LEAN = LEAN / "ExoModel" / "X86.lean"
 
 
@@ -662,6 +663,12 @@ def write_if_changed(text):
     return True
 
 
+def restore_baseline():
+    """put the accepted text back (after a run on a mutated library, so that the project builds again)"""
+    if BASELINE_TEXT.exists():
+        write_if_changed(BASELINE_TEXT.read_text())
+
+
 def baseline():
     if BASELINE.exists():
         return json.loads(BASELINE.read_text())
@@ -692,6 +699,7 @@ def main():
             print(f"  {i['name']}: " + " ".join(flag))
     if "--accept" in sys.argv:
         BASELINE.write_text(json.dumps({"hashes": {i["name"]: i["hash"] for i in infos}}, indent=1, sort_keys=True))
+        BASELINE_TEXT.write_text(text)
         print(f"baseline written: {BASELINE}")
     else:
         print("changed w.r.t. baseline:", changed_instrs(infos))
